@@ -20,6 +20,7 @@ const LEN: usize = Buffer::LEN;
 
 thread_local! {
     static EVALS: Cell<u64> = const { Cell::new(0) };
+    static HINTED: Cell<u64> = const { Cell::new(0) };
 }
 fn ev(n: u64) {
     EVALS.with(|c| c.set(c.get() + n));
@@ -303,6 +304,78 @@ where
     true
 }
 
+/// Signal nodes whose signal is a chain of real dasp_signal adaptors over an exhaustible source.
+/// Adaptors forward or combine the `is_exhausted()` *hint* of their sources while still yielding
+/// non-equilibrium frames (an offset, the other operand of a sum), so the node must keep writing
+/// what `next()` yields whatever the hint says. The reference is a second, identical instance of
+/// the same chain stepped directly with `next()`.
+fn adaptor_chain<const N: usize>(which: usize, len: u32) -> Box<dyn reg_signal::Signal<Frame = [f32; N]>>
+where
+    [f32; N]: reg_frame::Frame<Sample = f32, Signed = [f32; N], Float = [f32; N]>,
+{
+    use reg_signal::Signal;
+    let finite = move || reg_signal::from_iter((0..len).map(|k| -> [f32; N] { core::array::from_fn(|c| ((k * N as u32 + c as u32) % 97) as f32 / 128.0 + 0.125) }));
+    let mut t = 0u32;
+    let bed = move || {
+        reg_signal::gen_mut(move || -> [f32; N] {
+            t += 1;
+            core::array::from_fn(|c| ((t + c as u32) % 13) as f32 / 64.0 - 0.0625)
+        })
+    };
+    let half: [f32; N] = [0.5; N];
+    match which {
+        0 => Box::new(finite().offset_amp(0.5)),
+        1 => Box::new(bed().add_amp(finite())),
+        2 => Box::new(finite().add_amp(bed())),
+        3 => Box::new(finite().map(move |f: [f32; N]| -> [f32; N] { core::array::from_fn(|c| f[c] + 0.25) })),
+        4 => Box::new(finite().scale_amp(0.5).offset_amp(-0.25)),
+        5 => Box::new(finite().zip_map(bed(), |a: [f32; N], b: [f32; N]| -> [f32; N] { core::array::from_fn(|c| a[c] - b[c] + 0.75) })),
+        _ => Box::new(reg_signal::from_iter(std::iter::repeat(half).take(len as usize)).mul_amp(bed()).offset_amp(0.375)),
+    }
+}
+
+fn check_signal_chain<const N: usize>(cx: &mut Cx, n_out: usize, calls: usize) -> bool
+where
+    [f32; N]: reg_frame::Frame<Sample = f32, Signed = [f32; N], Float = [f32; N]>,
+{
+    // interpreter-sized selection under Miri (cfg(miri) is set by `cargo miri`)
+    let (chains, lens): (&[usize], &[u32]) = if cfg!(miri) { (&[0, 1, 5], &[40]) } else { (&[0, 1, 2, 3, 4, 5, 6], &[0, 1, 40, 64, 100]) };
+    for &which in chains {
+        for &len in lens {
+            let mut node = adaptor_chain::<N>(which, len);
+            let mut twin = adaptor_chain::<N>(which, len);
+            let hint_at_start = twin.is_exhausted();
+            let outs = drive(&mut node, &[], n_out, calls);
+            let mut hint_seen = hint_at_start;
+            for (k, out) in outs.iter().enumerate() {
+                for s in 0..LEN {
+                    let want_frame = twin.next();
+                    for c in 0..n_out {
+                        let want = if c < N { want_frame[c] } else { garbage_arr(c)[s] };
+                        if out[c][s].to_bits() != want.to_bits() {
+                            let what = if c >= N {
+                                "signal|surplus_buffer_modified"
+                            } else if hint_seen {
+                                "signal|frames_not_written_while_exhaustion_hint_set"
+                            } else {
+                                "signal|wrong_frame_or_channel"
+                            };
+                            cx.fail(what, format!("{}-channel adaptor chain #{} over a {}-frame source into {} buffers: call {} buffer {} sample {}: {} but next() of an identical signal yields {} (is_exhausted() hint {})", N, which, len, n_out, k, c, s, out[c][s], want, hint_seen));
+                            return false;
+                        }
+                    }
+                    hint_seen = twin.is_exhausted();
+                }
+                ev((n_out * LEN) as u64);
+            }
+            if hint_seen {
+                HINTED.with(|c| c.set(c.get() + 1));
+            }
+        }
+    }
+    true
+}
+
 // ------------------------------------------------------------------ nested graph
 fn check_graph_node(cx: &mut Cx, in_bufs: &[usize], n_out: usize, calls: usize, seed: u64) -> bool {
     let mut rng = Rng::derive(seed, &[16, 5]);
@@ -448,6 +521,8 @@ fn run_case(rep: &mut Report, what: &str, ins: &[usize], n_out: usize, calls: us
         "sumbuf_real" => check_sum_buffers(&mut cx, ins, n_out, false, calls, seed),
         "pass" => check_pass(&mut cx, ins.first().copied(), n_out, calls, seed),
         "delay" => check_delay(&mut cx, extra, ins.first().copied(), n_out, calls, seed),
+        "chain1" => check_signal_chain::<1>(&mut cx, n_out, calls),
+        "chain2" => check_signal_chain::<2>(&mut cx, n_out, calls),
         "signal1" => check_signal_node::<1>(&mut cx, n_out, calls),
         "signal2" => check_signal_node::<2>(&mut cx, n_out, calls),
         "signal3" => check_signal_node::<3>(&mut cx, n_out, calls),
@@ -520,9 +595,9 @@ fn main() {
             }
         }
     }
-    for what in ["signal1", "signal2", "signal3", "signal8"] {
+    for what in ["signal1", "signal2", "signal3", "signal8", "chain1", "chain2"] {
         for n_out in [0usize, 1, 2, 3, 4, 9] {
-            if lean && (n_out > 3 || what == "signal8") {
+            if lean && (n_out > 3 || what == "signal8" || (what.starts_with("chain") && n_out != 2)) {
                 continue;
             }
             jobs.push((what.into(), vec![], n_out, vec![]));
@@ -550,7 +625,7 @@ fn main() {
                 eprintln!("CASE what={};ins={:?};out={};calls={};seed={}", what, ins, n_out, calls, seed);
             }
             run_case(rep, what, ins, *n_out, calls, seed, extra);
-            if what == "wrappers" || what.starts_with("signal") {
+            if what == "wrappers" || what.starts_with("signal") || what.starts_with("chain") {
                 break;
             }
         }
@@ -558,9 +633,16 @@ fn main() {
             rep.nontrivial(vmon::hash_combine(vmon::hash_str(what), vmon::hash_str(&format!("{:?}{}{:?}", ins, n_out, extra))));
         }
         rep.eval(EVALS.with(|c| c.replace(0)));
+        let h = HINTED.with(|c| c.replace(0));
+        if h > 0 {
+            rep.hit_n("signal_node_driven_past_exhaustion_hint", h);
+        }
     });
     for r in reps {
         rep.merge(r);
+    }
+    if !lean {
+        rep.oblige("signal_node_driven_past_exhaustion_hint", 1);
     }
     if !lean {
         rep.exhaustive(format!("{} (node, input buffer counts, output buffer count, ring lengths) configurations: input counts 0..=5, buffers per node 0..=4 (all pairs for <= 2 inputs), {} consecutive calls, {} random contents each", n_jobs, calls, seeds));
